@@ -349,7 +349,14 @@ impl Lmdb {
         when: Time,
     ) -> Result<(), Error> {
         let key = Self::key_naddr_index(addr);
-        self.deleted_naddrs.put(txn, &key, &when.as_u64())?;
+        // the deletion time of an address never moves backwards
+        let mut when = when.as_u64();
+        if let Some(existing) = self.deleted_naddrs.get(txn, &key)? {
+            if existing > when {
+                when = existing;
+            }
+        }
+        self.deleted_naddrs.put(txn, &key, &when)?;
         Ok(())
     }
 
